@@ -191,6 +191,32 @@ fn child_hist(args: &Args) {
     let mut out = Out::new();
     let mut rng = Rng::derive(args.seed, 0xC02, args.shard);
     let fresh = Fresh::new();
+    // Prologue (half of the processes): before any `Dispatch::new` has run in this process and
+    // before a global default exists, a scope over a `Dispatch::from_static` collector - the
+    // emission inside it goes to that collector, one outside it to nobody.
+    if rng.bool() {
+        let z = Arc::new(FilterCollector::new(77, Spec { thresh: 5, targets: 0b1111, dynamic: false, hint: None }, true));
+        let d = vlib::rec::static_dispatch(0, z.clone());
+        let cs = fresh.take(1 + rng.usize(5), rng.usize(4), Kind::Event).expect("HARNESS: pool exhausted");
+        let emit = cs.emit;
+        let seen = dispatch::with_default(&d, || {
+            let _ = emit(900_001);
+            dispatch::get_default(|c| c.downcast_ref::<vlib::rec::Zst<0>>().is_some())
+        });
+        let _ = emit(900_002);
+        let got: Vec<u64> = z.take_log().into_iter().filter_map(|g| if let Got::Event { id, .. } = g { Some(id) } else { None }).collect();
+        out.evals += 1;
+        out.count("prologue_scopes_over_a_static_collector_before_any_Dispatch_new", 1);
+        vlib::rec::static_clear();
+        if got != vec![900_001] || !seen {
+            out.violation(
+                "a scope over a Dispatch::from_static collector, opened before any Dispatch::new ran in the process, did not receive exactly the emission made inside it",
+                json!({"received_event_ids": got, "expected": [900_001], "get_default_inside_the_scope_is_that_collector": seen, "shard": args.shard}),
+            );
+            out.emit();
+            return;
+        }
+    }
     let (mut arcs, mut ds) = mk_collectors(&mut rng, 4);
     // index 4 = `Dispatch::none()` installed as a scope: emissions inside it are discarded,
     // whatever the global default is
